@@ -34,6 +34,7 @@ def check(ctx):
     ctx.rule("R3", "every authoritative view (in, [], all_commands, locate_binary, is_only_functional_alias) refreshes the cache before reading it; only lazy* accessors may skip", floor=5)
     ctx.rule("R4", "the rebuild condition covers every input of the merged map: alias names, per-directory listings and the $PATH list itself", floor=3)
     ctx.rule("R5", "specs resolve binaries only through locate_executable", floor=2)
+    ctx.rule("R6", "no memoisation of file-system facts on the lookup path beyond the documented caches (mtime-keyed directory listings, opt-in read-once directories)", floor=2)
 
     ex = ctx.repo.module(EX)
     lf = ex.func("locate_file")
@@ -177,6 +178,47 @@ def check(ctx):
     ctx.ob("R4", f"{CC}:CommandsCache._update_paths_cache", "a directory is re-listed when its mtime differs from the remembered one", ok, key="paths|mtime-compare")
     del src
 
+    # ------------------------------------------------------------------ R6
+    FS = ("os.path.realpath", "os.path.isdir", "os.path.isfile", "os.path.exists", "os.access", "os.listdir", "os.scandir", "os.stat", "os.path.getmtime", "os.readlink", "os.path.islink")
+    ALLOWED_CACHE_GLOBALS = {"_stable_dir_cache": "opt-in $XONSH_COMMANDS_CACHE_READ_DIR_ONCE listings (documented as never refreshed)", "_stable_prefixes": "re-read when the env value changes", "_stable_prefixes_source": "env snapshot", "_stable_dir_reported": "debug reporting only"}
+    # functions that ask the file system: directly (call or reference to an os/pathlib query) or
+    # through another function of the same module
+    fs_funcs = {}
+    for m_ in (ex, cc):
+        direct = set()
+        for q, fn in m_.functions():
+            if any((call_name(c) or "") in FS or (call_name(c) or "").split(".")[-1] in ("is_file", "is_dir", "exists", "resolve", "iterdir", "stat", "lstat") for c in calls_in(fn)) or any(isinstance(x, ast.Attribute) and unparse(x) in FS for x in ast.walk(fn)):
+                direct.add(q)
+        grew = True
+        while grew:
+            grew = False
+            for q, fn in m_.functions():
+                if q in direct:
+                    continue
+                if any((call_name(c) or "").split(".")[-1] in {d.split(".")[-1] for d in direct} for c in calls_in(fn)):
+                    direct.add(q)
+                    grew = True
+        fs_funcs[m_.rel] = direct
+    if len(fs_funcs[ex.rel]) < 6:
+        raise AnalysisError(f"{ex.rel}: only {len(fs_funcs[ex.rel])} functions found that ask the file system")
+    for m_ in (ex, cc):
+        for q, fn in m_.functions():
+            decos = [unparse(d) for d in fn.decorator_list]
+            memo = [d for d in decos if "lru_cache" in d or d.endswith(".cache") or d == "cache" or "cached_property" in d or "memoize" in d.lower()]
+            touches_fs = q in fs_funcs[m_.rel]
+            if memo:
+                ctx.ob("R6", f"{m_.rel}:{q}", f"`@{memo[0]}` does not memoise a function that asks the file system (a parent symlink, mode or content can change while the arguments stay equal)", not touches_fs, key=f"{m_.rel}:{q}|memoised-fs-fact", where=loc(fn))
+        # module-level mutable caches
+        for name, asg in m_.assigns.items():
+            if "." in name:
+                continue
+            v = asg[-1].value if hasattr(asg[-1], "value") else None
+            is_container = isinstance(v, (ast.Dict, ast.Set, ast.List)) or (isinstance(v, ast.Call) and call_name(v) in ("dict", "set", "list", "collections.OrderedDict", "collections.defaultdict"))
+            if not is_container or name.isupper():
+                continue
+            written_by = [q for q, fn in m_.functions() if any(isinstance(n, (ast.Assign, ast.AugAssign)) and any(isinstance(t, ast.Subscript) and is_name(t.value, name) for t in (n.targets if isinstance(n, ast.Assign) else [n.target])) for n in walk_local(fn)) or any(isinstance(c.func, ast.Attribute) and is_name(c.func.value, name) and c.func.attr in ("add", "update", "setdefault", "append") for c in calls_in(fn))]
+            if written_by:
+                ctx.ob("R6", f"{m_.rel}:{name}", f"module-level cache `{name}` (filled by {written_by}) is one of the documented ones", name in ALLOWED_CACHE_GLOBALS, key=f"{m_.rel}|undocumented-module-cache|{name}", where=loc(asg[-1]), detail=ALLOWED_CACHE_GLOBALS.get(name))
     # ------------------------------------------------------------------ R5
     n_loc = 0
     for q, fn in sp.functions():
@@ -201,7 +243,8 @@ META = {
     "get_paths reverses iff the merge overwrites (front of $PATH wins) and the direct search scans front to back; "
     "the five authoritative views call update_cache() before any read and every other reader is a lazy* accessor; "
     "the rebuild condition of the merged map covers aliases, directory mtimes and the $PATH list itself (the last "
-    "was missing and has been repaired); specs use the one resolver.",
+    "was missing and has been repaired); specs use the one resolver; no function that (transitively) asks the file "
+    "system carries a memo decorator, and every module-level cache that is filled at run time is a documented one.",
     "note": "Decides the listed structural clauses, not the behaviour. chmod-only changes and read-once directories "
     "remain stale by construction of an mtime-keyed cache: not decided here.",
 }
